@@ -77,6 +77,11 @@ CLAIMED["C18"] = dict(
    text="(1) The REPL's completeness test is compared with the reference predicate on every string up to length 7 (8) over a 10-character alphabet (parens, string/bar/char/comment introducers, newline). (2) Every sequence of up to 3 (4) input lines from a 16-fragment menu and every two-line split of four forms at every token gap is piped into the built binary; stdout and stderr must equal the reference REPL's transcript, which cuts submissions with the reference predicate and evaluates them in sequence on one interpreter through the library interface.",
    note="hook H1 (cfg ruschm_verif) exposes the private completeness test; terminal mode of rustyline is not driven",
    design="7/C18")
+CLAIMED["C15"] = dict(
+   technique="bounded exhaustive sweep of fault x context x wrapper x layout plans, the reported position compared with extents recorded by the renderer",
+   text="Every C08 fault expression in every calling context and inside every derived-form wrapper (12 wrappers, at top level and inside a procedure) is rendered under every assignment of 5 separators (blank, LF, LF+indent, comment+LF, CRLF) to the first 3 (4) gaps of the failing form, after 0-2 preceding forms; the whole text is evaluated at once. The error must carry a location; for an unbound variable read or a non-procedure it must lie at an occurrence of the offending identifier / at the operator, otherwise inside the failing top-level form; never elsewhere.",
+   note="'at' tolerates the implementation's end-of-token convention (start <= position <= end+1); an assignment to an unbound variable is judged as 'inside the failing form' because the syntax tree keeps no position for its identifier (DESIGN 7/C15)",
+   design="7/C15")
 NOT_YET = "check not built yet (build in progress, see DESIGN.md section 12)"
 NA = {}
 
